@@ -9,16 +9,17 @@ from debian_inspector import version as V
 ID = 'C01'
 LEVEL = 'proof'
 THEOREMS = [
-    ('DebInspector.Thm.C01', ['Props.C01.sound', 'Props.C01.soundS', 'Props.C01.compareVersions_eq_dpkg',
+    ('DebInspector.Thm.C01', ['Props.C01.sound', 'Props.C01.soundS', 'Props.C01.soundC', 'Props.C01.compareVersions_eq_dpkg',
+                              'Props.C01.compareVersions_eq_dpkgC', 'Props.C01.verrevcmp_eq_declarative',
                               'Props.C01.compareStrings_eq_dpkg', 'Props.C01.empty_eq_zero']),
     ('DebInspector.Tie.VersionTables', ['Tie.VersionTables.rank_iso', 'Tie.VersionTables.tableOK',
                                         'Tie.VersionTables.table_keys', 'Tie.VersionTables.cmpStr_iso']),
 ]
 TRUSTED = [
     'Lean 4.33.0 kernel',
-    'Spec.VerOrder.cmpVer with Spec.Dpkg.order as the statement of "dpkg order" (declarative: alternating runs, '
-    'tilde < end < letters < others, digit runs by value); cross-checked on every run against a transliteration of '
-    "dpkg's C verrevcmp (op C01c) and against /usr/bin/dpkg --compare-versions when present (support, not proof)",
+    'Spec.Dpkg (a functional transliteration of lib/dpkg/version.c: order, verrevcmp, dpkg_version_compare, and the epoch / last-hyphen split of parseversion) '
+    'as the statement of "dpkg order"; proved equal, for all strings, to the declarative order Spec.VerOrder.cmpVer (alternating runs, tilde < end < letters < others, '
+    'digit runs by value); the transliteration itself is validated against /usr/bin/dpkg --compare-versions when present (support, not proof)',
     'hand model of compare_strings / compare_version_objects / from_string, tied by correspondence',
     'characters_order regenerated from the source each run (Generated/VersionTables.lean); str.isdigit table from the interpreter',
     'translator harness/translate.py and this correspondence harness',
@@ -30,16 +31,16 @@ RULE = ('C01s: every ordered pair of component strings of length <= L over {0 1 
         'non-trivial = both sides accepted and textually different')
 TECHNIQUE = ('Lean 4 theorem: model of compare_versions = declarative dpkg order for all accepted pairs (induction over the loop, '
              'table tie by decide over 57x57) + exhaustive small-scope and random correspondence + dpkg binary oracle')
-LEVEL_TEXT = ('Props.C01.sound / compareVersions_eq_dpkg: for every pair of accepted strings of any length, digit-run size and '
-              'number of leading zeros the model of compare_versions returns the dpkg order (epoch, upstream, revision; alternating '
-              'runs; tilde < end < letters < others; digit runs by value; missing revision = 0), proved in Lean 4 by induction '
-              'over the comparison loop. The rank table is regenerated from characters_order on every run and '
+LEVEL_TEXT = ('Props.C01.soundC / compareVersions_eq_dpkgC: for every pair of accepted strings of any length, digit-run size and '
+              'number of leading zeros the model of compare_versions returns the sign of the transliterated C dpkg_version_compare on the parseversion decompositions; '
+              'proved in Lean 4 in two steps, both by induction over the comparison loops: model = declarative order (epoch, upstream, revision; alternating '
+              'runs; tilde < end < letters < others; digit runs by value; missing revision = 0) and transliterated verrevcmp = declarative order '
+              '(verrevcmp_eq_declarative: skip zeros / longer run wins / first difference is numeric comparison). The rank table is regenerated from characters_order on every run and '
               'Tie.VersionTables.rank_iso re-proves by decide that it is order-isomorphic to dpkg order() on all 57x57 symbol pairs. '
               'The control flow is tied to the code by exhaustive correspondence on all component pairs of length <= 2/3 over a '
               '9-symbol alphabet and random near-pairs; holdsOn is evaluated on every implementation observation.')
-LEVEL_NOTE = ('Trusted: Lean kernel; axioms propext, Classical.choice, Quot.sound only; "dpkg order" is the declarative '
-              'Spec.VerOrder order with dpkg order() ranks - its equality with the transliterated C verrevcmp is checked by test '
-              '(op C01c, dpkg binary), not yet by theorem.')
+LEVEL_NOTE = ('Trusted: Lean kernel; axioms propext, Classical.choice, Quot.sound only; that Spec.Dpkg is a faithful transliteration of '
+              "dpkg's C source (read against lib/dpkg/version.c; validated against the dpkg binary).")
 
 SYMS = '~ABCDEFGHIJKLMNOPQRSTUVWXYZabcdefghijklmnopqrstuvwxyz+-.'
 COMP_ALPHABET = '019aZ~+-.'
